@@ -263,21 +263,21 @@ theorem nsPlain_ext {t t' : Tabs} (h : Ext t t') {st : SM.St} (ha : AllocOK t st
         · simp only [hr, if_true, h.rid q x (ha.refs q x hr)]
         · simp only [hr, Bool.false_eq_true, if_false]
 
-theorem slotBinding_ext {t t' : Tabs} (h : Ext t t') {st : SM.St} (ha : AllocOK t st) (e : Path × String) :
-    slotBinding t' e = slotBinding t e := by
+theorem qualOf_ext {t t' : Tabs} (h : Ext t t') (q : Path) (x : String) : qualOf t' q x = qualOf t q x := by
+  unfold qualOf; rw [h.slots]
+
+theorem slotBinding_ext {t t' : Tabs} (h : Ext t t') {st : SM.St} (ha : AllocOK t st) (e : Path × String)
+    (he : e ∈ t.slots) : slotBinding t' e = slotBinding t e := by
   unfold slotBinding
-  rw [h.slots]
-  by_cases hc : t.slots.contains e = true
-  · simp only [hc, if_true]
-    rw [h.rid e.1 e.2 (ha.slots e (by simpa using hc))]
-  · simp only [hc, Bool.false_eq_true, if_false]
+  rw [h.rid e.1 e.2 (ha.slots e he)]
 
 theorem nsAt_ext {t t' : Tabs} (h : Ext t t') {st : SM.St} (ha : AllocOK t st) (q : Path) (hq : q ∈ st.ids) :
     nsAt t' st q = nsAt t st q := by
   funext x
   unfold nsAt
-  cases qualOf q x with
-  | some e => exact slotBinding_ext h ha e
+  rw [qualOf_ext h]
+  cases hx : qualOf t q x with
+  | some e => exact slotBinding_ext h ha e (List.mem_of_find?_eq_some hx)
   | none => simp only [nsPlain_ext h ha q hq]
 
 theorem refPay_ext {t t' : Tabs} (h : Ext t t') (st : SM.St) (q : Path) (x : String) :
